@@ -155,6 +155,11 @@ def impl(case):
                             add("pd_series_" + dt, lambda dt=dt: h1(pd.Series(col.astype(dt), name=names[0]), bins1, weights=ww, **akw), True)
                             add("array_" + dt, lambda dt=dt: h1(col.astype(dt), bins1, weights=ww, **akw), False)
                             add("pl_series_" + dt, lambda dt=dt: h1(pl.Series(names[0], col.astype(dt)), bins1, weights=ww, **akw), True)
+                def nullable(dtype):
+                    vals = [pd.NA if math.isnan(x) else (int(x) if dtype == "Int64" else float(x)) for x in col]
+                    return pd.Series(vals, dtype=dtype, name=names[0])
+                add("pd_series_Float64", lambda: h1(nullable("Float64"), bins1, weights=ww, **akw), True)
+                if d["ints"] == "T": add("pd_series_Int64", lambda: h1(nullable("Int64"), bins1, weights=ww, **akw), True)
                 add("pd_series_wseries", lambda: h1(pd.Series(col, name=names[0]), bins1, weights=(None if ww is None else pd.Series(ww)), **akw), True)
                 add("pd_series_acc", lambda: pd.Series(col, name=names[0]).physt.h1(bins1, weights=ww, **akw), True)
                 add("pd_df_acc", lambda: pd.DataFrame({names[0]: col, "w": (np.ones(n) if ww is None else ww)}).physt.h1(names[0], bins1, weights=(None if ww is None else "w"), **akw), True)
